@@ -424,6 +424,9 @@ Proof.
   now apply (split_lines_In_incl s l).
 Qed.
 
+Lemma parse_ref_In s : ~ In CR s -> parse s = ref_parse s.
+Proof. intros H. apply parse_ref. unfold no_cr. now rewrite negb_true_iff, mem_byte_false. Qed.
+
 (* ------------------------------------------------------------------ *)
 (* C03 (6): CRLF after a line is treated like LF, lifted to Parse       *)
 
@@ -525,3 +528,162 @@ Proof.
         -- rewrite (collect_cons_nomark _ x _ E). exact IH.
     + intros H. apply in_app_or in H. destruct H as [H|[H|[]]]; [now apply Hnl|discriminate].
 Qed.
+
+(* the non-marker case: the comment and the file data of the two archives are the
+   same texts, except the one text that contains the line, which differs by that CR *)
+Definition texts (a : archive) : list bytes := comment a :: map snd (files a).
+Definition texts_c (r : bytes * list (bytes * bytes)) : list bytes := fst r :: map snd (snd r).
+
+Lemma collect_replace_nomark ml x y ls1 ls2 :
+  ml x = None -> ml y = None ->
+  exists ts1 p q ts2,
+    texts_c (collect ml (ls1 ++ x :: ls2)) = ts1 ++ (p ++ x ++ q) :: ts2 /\
+    texts_c (collect ml (ls1 ++ y :: ls2)) = ts1 ++ (p ++ y ++ q) :: ts2.
+Proof.
+  intros Hx Hy. induction ls1 as [|l ls1 IH].
+  - exists [], [], (fst (collect ml ls2)), (map snd (snd (collect ml ls2))).
+    cbn [app]. rewrite !collect_cons_nomark by assumption. split; reflexivity.
+  - destruct IH as [ts1 [p [q [ts2 [HA HB]]]]]. cbn [app].
+    destruct (ml l) as [n|] eqn:E.
+    + rewrite !(collect_cons_mark ml l n) by assumption.
+      exists ([] :: ts1), p, q, ts2. unfold texts_c in *. cbn [fst snd map app].
+      now rewrite HA, HB.
+    + rewrite !(collect_cons_nomark ml l) by assumption.
+      unfold texts_c in *. cbn [fst snd].
+      destruct ts1 as [|t ts1']; cbn [app] in *.
+      * injection HA as HA1 HA2. injection HB as HB1 HB2.
+        exists [], (l ++ p), q, ts2. cbn [app]. rewrite HA1, HA2, HB1, HB2.
+        now rewrite <- !app_assoc.
+      * injection HA as HA1 HA2. injection HB as HB1 HB2.
+        exists ((l ++ t) :: ts1'), p, q, ts2. cbn [app]. rewrite HA2, HB2, HA1.
+        split; [reflexivity|]. now rewrite HB1.
+Qed.
+
+Lemma texts_parse_with ml d :
+  texts (parse_with ml d) = map fix_nl (texts_c (collect ml (split_lines d))).
+Proof.
+  unfold texts, texts_c. rewrite parse_with_eq. cbn [comment files map]. f_equal.
+  rewrite !map_map. now apply map_ext.
+Qed.
+
+Lemma crlf_nonmarker_local pre l post :
+  pre = [] \/ last_byte pre = Some NL ->
+  ~ In NL l -> last_byte l <> Some CR -> marker_line (l ++ [NL]) = None ->
+  exists ts1 p q ts2,
+    texts (parse (pre ++ l ++ [CR; NL] ++ post)) = ts1 ++ fix_nl (p ++ (l ++ [CR; NL]) ++ q) :: ts2 /\
+    texts (parse (pre ++ l ++ [NL] ++ post)) = ts1 ++ fix_nl (p ++ (l ++ [NL]) ++ q) :: ts2.
+Proof.
+  intros Hpre Hnl Hcr Hm.
+  assert (E1 : split_lines (pre ++ l ++ [CR; NL] ++ post)
+               = split_lines pre ++ (l ++ [CR; NL]) :: split_lines post).
+  { apply (split_lines_around pre l [CR] post Hpre).
+    intros H. apply in_app_or in H. destruct H as [H|[H|[]]]; [now apply Hnl|discriminate]. }
+  assert (E2 : split_lines (pre ++ l ++ [NL] ++ post)
+               = split_lines pre ++ (l ++ [NL]) :: split_lines post).
+  { apply (split_lines_around pre l [] post Hpre). now rewrite app_nil_r. }
+  assert (Hm' : marker_line (l ++ [CR; NL]) = None) by (now rewrite marker_line_crlf).
+  destruct (collect_replace_nomark marker_line (l ++ [CR; NL]) (l ++ [NL])
+              (split_lines pre) (split_lines post) Hm' Hm) as [ts1 [p [q [ts2 [HA HB]]]]].
+  exists (map fix_nl ts1), p, q, (map fix_nl ts2).
+  unfold parse. rewrite !texts_parse_with, E1, E2.
+  split.
+  - apply (f_equal (map fix_nl)) in HA. rewrite map_app in HA. exact HA.
+  - apply (f_equal (map fix_nl)) in HB. rewrite map_app in HB. exact HB.
+Qed.
+
+(* ------------------------------------------------------------------ *)
+(* Examples: the hypotheses above are satisfiable by non-trivial values, and the
+   statements were evaluated on concrete inputs before being proved.            *)
+
+Require Coq.Strings.String.
+Import Coq.Strings.String.StringSyntax.
+Delimit Scope string_scope with string.
+Definition B (s : String.string) : bytes := String.list_byte_of_string s.
+Arguments B s%string.
+Definition CRLF : bytes := [CR; NL].
+
+(* three files, markers terminated by CRLF, CRLF and LF, unterminated last file *)
+Definition ex_crlf : bytes :=
+  B "intro" ++ CRLF ++ B "-- a.txt --" ++ CRLF ++ B "A1" ++ CRLF ++ B "A2" ++ [NL]
+  ++ B "--   b   --" ++ CRLF ++ B "-- c/d --" ++ [NL] ++ B "last".
+
+Example ex_crlf_parse :
+  parse ex_crlf =
+  {| comment := B "intro" ++ CRLF;
+     files := [ (B "a.txt", B "A1" ++ CRLF ++ B "A2" ++ [NL]); (B "b", []); (B "c/d", B "last" ++ [NL]) ] |}.
+Proof. vm_compute. reflexivity. Qed.
+
+(* the reference parser sees no marker in the CRLF lines: the no_cr hypothesis of
+   parse_ref is needed *)
+Example ex_crlf_ref_differs : no_cr ex_crlf = false /\ names (ref_parse ex_crlf) = [B "c/d"].
+Proof. vm_compute. split; reflexivity. Qed.
+
+Definition ex_lf : bytes :=
+  B "intro" ++ [NL] ++ B "-- a.txt --" ++ [NL] ++ B "A1" ++ [NL] ++ B "--  b  --" ++ [NL]
+  ++ B "-- --" ++ [NL] ++ B "-- c --" ++ [NL] ++ B "x".
+
+Example ex_lf_no_cr : no_cr ex_lf = true /\ length (files (parse ex_lf)) = 3.
+Proof. vm_compute. split; reflexivity. Qed.
+
+Example ex_lf_ref : parse ex_lf = ref_parse ex_lf.
+Proof. apply parse_ref. vm_compute. reflexivity. Qed.
+
+(* a well-formed archive (hypothesis of parse_format_wf): look-alike lines "-- --",
+   "--x --" are allowed in data, names may contain inner spaces *)
+Definition ex_wf : archive :=
+  {| comment := B "hello" ++ [NL] ++ B "-- --" ++ [NL];
+     files := [ (B "a", B "x" ++ [NL]); (B "b b", []); (B "c", B "--x --" ++ CRLF ++ B "y" ++ [NL]) ] |}.
+
+Example ex_wf_ok : wf_archive ex_wf = true.
+Proof. vm_compute. reflexivity. Qed.
+
+Example ex_wf_roundtrip : parse (format ex_wf) = ex_wf.
+Proof. apply parse_format_wf. exact ex_wf_ok. Qed.
+
+(* without the side condition the round trip fails: an untrimmed name, an
+   unterminated data, a data containing a marker line *)
+Example ex_not_wf :
+  parse (format {| comment := []; files := [(B " a ", B "x")] |})
+    = {| comment := []; files := [(B "a", B "x" ++ [NL])] |} /\
+  names (parse (format {| comment := []; files := [(B "a", B "-- b --" ++ [NL])] |})) = [B "a"; B "b"].
+Proof. vm_compute. split; reflexivity. Qed.
+
+(* the two inputs on which the unrepaired Go code failed *)
+Example ex_short_marker : parse (B "-- --") = {| comment := B "-- --" ++ [NL]; files := [] |}.
+Proof. vm_compute. reflexivity. Qed.
+
+Example ex_marker_cr_eof : parse (B "-- a --" ++ [CR]) = {| comment := []; files := [(B "a", [])] |}.
+Proof. vm_compute. reflexivity. Qed.
+
+Example ex_marker_cr_eof_stable :
+  parse (format (parse (B "-- a --" ++ [CR]))) = parse (B "-- a --" ++ [CR]).
+Proof. vm_compute. reflexivity. Qed.
+
+(* hypotheses of crlf_like_lf / crlf_marker_like_lf *)
+Example ex_crlf_hyps :
+  let pre := B "c" ++ [NL] in let l := B "--  a  --" in
+  (pre = [] \/ last_byte pre = Some NL) /\ ~ In NL l /\ last_byte l <> Some CR /\
+  marker_core l = Some (B "a").
+Proof.
+  cbv zeta. split; [right; reflexivity|]. split; [apply mem_byte_false; reflexivity|].
+  split; [vm_compute; discriminate|vm_compute; reflexivity].
+Qed.
+
+(* a non-marker line: names agree, the data differs by the CR only *)
+Example ex_crlf_nonmarker :
+  parse (B "-- a --" ++ [NL] ++ B "x" ++ CRLF ++ B "y") = {| comment := []; files := [(B "a", B "x" ++ CRLF ++ B "y" ++ [NL])] |} /\
+  parse (B "-- a --" ++ [NL] ++ B "x" ++ [NL] ++ B "y") = {| comment := []; files := [(B "a", B "x" ++ [NL] ++ B "y" ++ [NL])] |}.
+Proof. vm_compute. split; reflexivity. Qed.
+
+(* the hypothesis "l does not end in CR" is needed: CR CR LF is not a marker end *)
+Example ex_crcrlf :
+  marker_line (B "-- a --" ++ [CR] ++ CRLF) = None /\ marker_line (B "-- a --" ++ [CR] ++ [NL]) = Some (B "a").
+Proof. vm_compute. split; reflexivity. Qed.
+
+(* Unicode white space around a name is trimmed (U+00A0, U+3000), inner kept *)
+Example ex_unicode_trim :
+  marker_line (B "-- " ++ [xc2; xa0] ++ B "a b" ++ [xe3; x80; x80] ++ B " --" ++ [NL]) = Some (B "a b").
+Proof. vm_compute. reflexivity. Qed.
+
+Eval vm_compute in (parse (B "-- a --" ++ CRLF ++ B "-- a --")).
+Eval vm_compute in (wf_archive (parse ex_crlf), bytes_eqb (format (parse (format ex_wf))) (format ex_wf)).
